@@ -74,7 +74,18 @@ type Prover struct {
 	useKarr  bool // include the affine equalities of karr.go among the facts
 	noKarr   bool
 	phiB     []Poly
+	calls    int // prove1 invocations for the current top-level goal (work limit, deterministic)
 }
+
+// maxProveCalls bounds the search below one top-level goal: the recursion prove -> divFacts / phiStep
+// / splitPreds -> prove is limited in depth but not in breadth, and on an unlucky shape (many
+// division atoms over many facts) it does not come back in an hour. A goal that exhausts the
+// allowance is unproved, which every rule reads as "report". The largest count on the pinned tree,
+// the controls and the stored corpora is two orders of magnitude below.
+const maxProveCalls = 50000
+
+var proveCallsHigh int // high-water mark, printed with MAMBA_PROVESTATS
+
 
 func NewProver(c *Ctx, fn *ssa.Function) *Prover {
 	P := &Prover{c: c, fn: fn, byKey: map[string]*Atom{}, divDone: map[int]bool{}, memo: map[string]bool{}, hdrFacts: map[*ssa.BasicBlock][]Poly{}, Budget: 20000, DProve: 6, DElim: 6}
@@ -1167,6 +1178,7 @@ func (P *Prover) Prove(goal Poly, blk *ssa.BasicBlock) bool {
 // ProveWith proves goal at blk under additional facts.
 func (P *Prover) ProveWith(goal Poly, blk *ssa.BasicBlock, extra []Poly) bool {
 	P.budget = P.Budget
+	P.calls = 0
 	P.splitAt = P.DProve
 	if P.prove(goal, blk, extra, nil, P.DProve) {
 		return true
@@ -1179,6 +1191,7 @@ func (P *Prover) ProveWith(goal Poly, blk *ssa.BasicBlock, extra []Poly) bool {
 	P.useKarr = true
 	P.gen++
 	P.budget = P.Budget
+	P.calls = 0
 	res := P.prove(goal, blk, extra, nil, P.DProve)
 	P.useKarr = false
 	P.gen++
@@ -1348,6 +1361,7 @@ func (P *Prover) Unreachable(blk *ssa.BasicBlock, extra []Poly) bool {
 	P.gen++
 	defer func() { P.global = saved; P.gen++ }()
 	P.budget = P.Budget
+	P.calls = 0
 	// a dominating disequality d != 0 is contradicted by proving d == 0 (phi-induction allowed)
 	for _, f := range P.factsAt(blk) {
 		if _, isNeq := f["!="]; !isNeq {
@@ -1457,6 +1471,13 @@ func (P *Prover) prove(goal Poly, blk *ssa.BasicBlock, extra []Poly, hyps []hyp,
 }
 
 func (P *Prover) prove1(goal Poly, blk *ssa.BasicBlock, extra []Poly, hyps []hyp, depth int) bool {
+	P.calls++
+	if P.calls > proveCallsHigh {
+		proveCallsHigh = P.calls
+	}
+	if P.calls > maxProveCalls {
+		return false
+	}
 	// dominating-edge facts first: building them may create atoms whose type facts must be visible below
 	dom := P.factsAt(blk)
 	facts := append([]Poly{}, P.global...)
